@@ -479,7 +479,11 @@ fn observe(t: &MTx, coins: &[Coin], reqs: &[Req]) -> Obs {
         .iter()
         .map(|r| {
             let b = sd.transparent_bundle()?;
-            let ht = SighashType::parse(r.ht)?;
+            // ZIP 244 accepts the six defined hash types only; before v5 the raw byte is used
+            let ht = match t.version {
+                TxVersion::V3 | TxVersion::V4 => SighashType::from_raw(r.ht),
+                _ => SighashType::parse(r.ht)?,
+            };
             let si = zcash_transparent::sighash::SignableInput::from_parts(b, ht, r.idx, &r.code, &r.spk, r.value).ok()?;
             catch(|| *signature_hash(&sd, &SignableInput::Transparent(si), &parts).as_ref())
         })
@@ -1286,8 +1290,20 @@ fn emit_v4_mut(g: &mut Gen, t: &MTx, coins: &[Coin], field: u32, own: bool) -> b
     if field < 90 && coq_tx4(t) == coq_tx4(&m) {
         return false;
     }
-    let r1 = all_reqs(t, coins, &[idx]);
-    let r2 = all_reqs(&m, &c, &[idx]);
+    let mut r1 = all_reqs(t, coins, &[idx]);
+    let mut r2 = all_reqs(&m, &c, &[idx]);
+    // raw pre-v5 hash-type bytes: undefined bits 0x20 / 0x40 on top of NONE / SINGLE, and any byte
+    if idx < n_in {
+        for _ in 0..3 {
+            let ht = if g.rng.bool() {
+                *g.rng.pick(&[0x22u8, 0x23, 0x42, 0x43, 0x62, 0x63, 0xa2, 0xa3, 0xc2, 0xc3, 0xe2, 0xe3])
+            } else {
+                g.rng.below(256) as u8
+            };
+            r1.push(Req { ht, idx, value: coins[idx].0, spk: coins[idx].1.clone(), code: coins[idx].2.clone() });
+            r2.push(Req { ht, idx, value: c[idx].0, spk: c[idx].1.clone(), code: c[idx].2.clone() });
+        }
+    }
     let (o1, o2) = match (observe_safe(t, coins, &r1), observe_safe(&m, &c, &r2)) {
         (Ok(a), Ok(b)) => (a, b),
         (a, b) => {
@@ -1310,6 +1326,41 @@ fn emit_v4_mut(g: &mut Gen, t: &MTx, coins: &[Coin], field: u32, own: bool) -> b
     ));
     g.bump(&format!("v4mut_{}", field));
     true
+}
+
+/// A reader that hands out at most `k` bytes per `read` call (a socket / pipe / chunked source).
+struct Chunked<'a> {
+    data: &'a [u8],
+    pos: usize,
+    k: usize,
+}
+impl<'a> std::io::Read for Chunked<'a> {
+    fn read(&mut self, buf: &mut [u8]) -> std::io::Result<usize> {
+        let n = buf.len().min(self.k).min(self.data.len() - self.pos);
+        buf[..n].copy_from_slice(&self.data[self.pos..self.pos + n]);
+        self.pos += n;
+        Ok(n)
+    }
+}
+/// Parse-path independence: the txid of a transaction parsed from `bytes` must not depend on how
+/// the reader fragments them. `expected` = SHA-256d(bytes) before v5, the txid of the built
+/// transaction from v5 on. Returns the number of cases printed.
+fn reparse_cases(g: &mut Gen, ver: u32, bytes: &[u8], branch: BranchId, expected: &[u8; 32]) -> u64 {
+    let mut n = 0;
+    let r = 1 + g.rng.below(100) as usize;
+    let r2 = 1 + g.rng.below(100) as usize;
+    for k in [usize::MAX, 1, 31, 64, r, r2] {
+        let kk = if k == usize::MAX { 0 } else { k };
+        match catch(|| Transaction::read(Chunked { data: bytes, pos: 0, k }, branch)) {
+            Some(Ok(tx)) => case(format!("CReparse {} {} {} {}", ver, kk, h(expected), h(tx.txid().as_ref()))),
+            // a parse error that depends on the fragmentation is a failure too (empty observation)
+            Some(Err(_)) => case(format!("CReparse {} {} {} {}", ver, kk, h(expected), h(&[]))),
+            None => case("CPanicOther".to_string()),
+        }
+        n += 1;
+    }
+    g.bump("reparse");
+    n
 }
 
 /// a published test-vector value against what the implementation computed
@@ -1433,6 +1484,16 @@ fn main() {
             }
             emit_ctx(if v6 { 3 } else { 2 }, &t, &coins, &reqs);
             g.bump(if v6 { "tx_v6" } else { "tx_v5" });
+            // (only wire-expressible transactions: one anchor for all Sapling spends)
+            if k % 4 == 0 && uniform {
+                if let Some(Ok(tx)) = catch(|| t.authorized().freeze()) {
+                    let mut bytes = vec![];
+                    if tx.write(&mut bytes).is_ok() && Transaction::read(&bytes[..], t.branch).is_ok() {
+                        let id: [u8; 32] = *tx.txid().as_ref();
+                        n_cases += reparse_cases(&mut g, if v6 { 6 } else { 5 }, &bytes, t.branch, &id);
+                    }
+                }
+            }
             for (name, present) in [
                 ("with_transparent", t.transp.is_some()),
                 ("with_sapling", t.sap.is_some()),
@@ -1547,9 +1608,8 @@ fn main() {
             ));
             g.bump(&format!("v{}_txid", ver_code(tx.version())));
             n_cases += 1;
-            // reading the bytes back gives the same txid
-            let back = Transaction::read(&bytes[..], branch).expect("re-read");
-            assert_eq!(back.txid(), tx.txid());
+            // reading the bytes back, however the reader fragments them, gives the same txid
+            n_cases += reparse_cases(&mut g, ver_code(tx.version()), &bytes, branch, &sha256d(&bytes));
         });
         if step.is_none() {
             g.bump("generator_step_panicked");
@@ -1581,6 +1641,7 @@ fn main() {
                 ));
                 n += 1;
                 n_cases += 1;
+                n_cases += reparse_cases(&mut g, ver_code(tx.version()), &txb, br, &sha256d(&txb));
                 if !matches!(tx.version(), TxVersion::V3 | TxVersion::V4) {
                     return;
                 }
@@ -1646,6 +1707,30 @@ fn main() {
                 reqs.push(Req { ht, idx: other, value: coins[other].0, spk: coins[other].1.clone(), code: coins[other].2.clone() });
                 emit_v4_tx(2, &t, &coins, &reqs);
                 n_cases += 1;
+            }
+            if r < a.budget(2, 6) {
+                // every raw hash-type byte for one input (32 per case to spread the evaluation);
+                // a single Sapling spend keeps the 256 pre-images short
+                let mut t = t.clone();
+                if let Some(s) = t.sap.as_mut() {
+                    s.outputs.clear();
+                    s.spends.truncate(1);
+                }
+                let i = (r % 2) as usize;
+                for chunk in 0..8u32 {
+                    let reqs: Vec<Req> = (0..32u32)
+                        .map(|j| Req {
+                            ht: (chunk * 32 + j) as u8,
+                            idx: i,
+                            value: coins[i].0,
+                            spk: coins[i].1.clone(),
+                            code: coins[i].2.clone(),
+                        })
+                        .collect();
+                    emit_v4_tx(3, &t, &coins, &reqs);
+                    n_cases += 1;
+                }
+                g.bump("v4_all_raw_hash_types");
             }
             for f in [1u32, 2, 10, 11, 12, 13, 20, 21, 30, 31, 32, 33, 34, 35, 40, 41, 42, 43, 44, 45, 46, 47, 48, 49, 94, 95, 97] {
                 for own in [true, false] {
